@@ -135,7 +135,7 @@ def capture(run):
             setattr(cls, name, orig)
 
 
-def run_scenario(iso, opts, title=None, keep_csv=False):
+def run_scenario(iso, opts, title=None, keep_csv=False, save_all_results=False):
     """one full (up to three-round) run of the real pipeline for one country row"""
     from src.scenarios.run_scenario import ScenarioRunner
     rows = country_rows()
@@ -154,7 +154,7 @@ def run_scenario(iso, opts, title=None, keep_csv=False):
             else:
                 c, tc, sl = sr.set_depending_on_option(copy.deepcopy(opts), country_data=row)
             run.constants_for_params = c
-            run.result = sr.run_and_analyze_scenario(c, tc, sl, False, False, "", row, False, "world" if world else row["country"], iso, title=title)
+            run.result = sr.run_and_analyze_scenario(c, tc, sl, False, False, "", row, bool(save_all_results), "world" if world else row["country"], iso, title=title)
     except BaseException as e:  # SystemExit from sys.exit() inside the code included
         if isinstance(e, KeyboardInterrupt):
             raise
